@@ -238,4 +238,25 @@ def lenSim (L : Limits) (topicHasInbox : Bool) : Nat → List (Nat × Bool) → 
       (if topicHasInbox then (a + n) :: d else d, c)
     else lenSim L topicHasInbox (a + n) rest
 
+/-! ### whose messages these are
+
+A `MultiConn` has exactly one remote identity. `AddPeer` records it in the `PeerInfo` that every inbox
+entry of the connection carries as `Sender` and under which the peer is registered in the peer set. -/
+
+/-- `P2P.AddPeer` after the handshake authenticated key `auth` (C17 `auth`): an outbound dial with
+`strictPublicKey` is refused when the dialed key is not the authenticated one
+(`src_strictKeyCheck`); otherwise the recorded identity is the AUTHENTICATED key — never the key the
+caller dialed or claimed (generated fact `attributionIsAuthenticatedKey`). -/
+def recordedIdentity (auth : Nat) (claimed : Option Nat) (outbound strict : Bool) : Option Nat :=
+  if outbound ∧ strict ∧ claimed ≠ some auth then none else some auth
+
+/-- an inbox entry as the application sees it: the payload and the recorded sender -/
+structure Tagged where
+  sender : Nat
+  msg : Bytes
+  deriving DecidableEq, Repr
+
+/-- every message of a connection's log, tagged as the real code tags it -/
+def Receiver.tagged (r : Receiver) (sender : Nat) (t : Nat) : List Tagged := (r.log.get t).map (Tagged.mk sender)
+
 end Canopy.Mux
